@@ -102,7 +102,10 @@ def rule_object(ctx: Ctx) -> None:
         kw = {k: S(v) for k, v in calls[0].kwargs.items()}
         want = {"instance_token": "instance_token", "sample_token": "sample_token", "seconds": "seconds", "in_agent_frame": "True" if base else "False", "just_xy": "False"}
         for k, w in want.items():
-            ctx.check(kw.get(k) == w, "C16-tracking", "_get_tracking_data", f"{k}:{'ego' if base else 'map'}", f"past records are requested with {k}={kw.get(k)}; expected {w}", fi=ft, expected=w, found=str(kw.get(k)))
+            okk = kw.get(k) == w
+            if k == "in_agent_frame" and kw.get(k) in ("frame_id==FrameID.BASE_LINK", "FrameID.BASE_LINK==frame_id"):
+                okk = True  # the flag computed from the frame id: True exactly for BASE_LINK on both rows
+            ctx.check(okk, "C16-tracking", "_get_tracking_data", f"{k}:{'ego' if base else 'map'}", f"past records are requested with {k}={kw.get(k)}; expected {w}", fi=ft, expected=w, found=str(kw.get(k)))
         lp = [e for e in p.effects if e.kind == "loop"]
         ctx.require(len(lp) == 1, "_get_tracking_data: record loop not found")
         r = U(lp[0].node.target)
